@@ -432,16 +432,37 @@ def _flags(ctx, repo, req, ans):
     for cls in (req, ans):
         ini = cls.methods.get("__init__")
         ctx.need(ini, f"{cls.name}.__init__")
-        flagcalls = [c for c in fn_calls(ini) if call_name(c).endswith("set_flag_by_app_id")]
-        hdr = [c for c in fn_calls(ini) if call_name(c) == "DiameterHeader"]
-        ok = False
-        if flagcalls and hdr:
-            a = [x for x in flagcalls[0].args if not (isinstance(x, ast.Name) and x.id == "self")]
-            arg = ast.unparse(a[0]) if a else None
-            app_kw = [ast.unparse(kwarg(h, "application_id")) for h in hdr if kwarg(h, "application_id") is not None]
-            ok = arg is not None and arg in app_kw
-        cfg = make_cfg(repo, ini)
-        on_all = bool(flagcalls) and must_pass(cfg, lambda n: any(c is flagcalls[0] for c in node_calls(n)))
+        # on terms: every path that returns normally calls set_flag_by_app_id exactly once, and the application id it receives
+        # is the one some path gives to the header it builds (keywords may arrive through a dict, `**fields`)
+        from .. import sym as _sy
+        from ..astutil import strip_doc as _sd
+        ps_ = [a_.arg for a_ in ini.args.args if a_.arg != "self"]
+        on_all, flag_args, hdr_apps, n_paths = True, set(), set(), 0
+        try:
+            paths_ = _sy.Interp(fold=lambda e: repo.fold(cls.mod, e), log_calls=True).run(
+                _sd(ini.body), _sy.PathState({a_: _sy.S(a_) for a_ in ps_}, [], []))
+        except _sy.TooMany:
+            paths_ = []
+        for p_ in paths_:
+            if p_.term == "raise":
+                continue
+            n_paths += 1
+            fl_, seen_ = [], set()
+            for e in p_.effects:
+                if e[0] not in ("ecall", "call") or not (isinstance(e[1], tuple) and e[1] and e[1][0] == "call") or id(e[2]) in seen_:
+                    continue
+                seen_.add(id(e[2]))
+                fname = _sy.show(e[1][1])
+                if fname.endswith("set_flag_by_app_id"):
+                    a_ = [x for x in e[1][2] if x != ("name", "self") and x != _sy.S("self")]
+                    fl_.append(a_[0] if a_ else dict(e[1][3]).get("app_id"))
+                elif fname == "DiameterHeader":
+                    v_ = dict(e[1][3]).get("application_id")
+                    if v_ is not None:
+                        hdr_apps.add(v_)
+            on_all = on_all and len(fl_) == 1
+            flag_args |= set(fl_)
+        ok = n_paths > 0 and len(flag_args) == 1 and next(iter(flag_args)) in hdr_apps
         ctx.decide(ok and on_all, "R-FLOW/flags", f"{cls.qual}.__init__", cls.where(ini),
                    "set_flag_by_app_id runs on every path with the application id given to the header",
                    "set_flag_by_app_id is skipped on some path or receives a different application id than the header",
